@@ -110,14 +110,22 @@ def place_faults(plan, z, seed, per_op=1):
     r = random.Random(seed ^ 0xFA17)
     p1 = copy.deepcopy(plan); p1["faults"] = []
     res = z.run(p1)
-    fsn = {}
+    fsn = {}; wmax = {}
     for e in res.hist:
-        if e.get("e") == "ret" and "cs" not in e and e.get("t") == 0 and "fsn" in e: fsn[e["op"]] = e["fsn"]
+        if e.get("e") == "ret" and "cs" not in e and e.get("t") == 0 and "fsn" in e:
+            fsn[e["op"]] = e["fsn"]
+            if "wmax" in e: wmax[e["op"]] = e["wmax"]
     plan = copy.deepcopy(plan); plan["faults"] = []
     for k in cands:
         counts = {kind: n for kind, n in fsn.get(k, {}).items() if kind in FS_ERRS and n > 0}
         if not counts: continue
         for _ in range(per_op):
+            wm = wmax.get(k)
+            if wm and wm[1] > 600 and r.random() < (0.6 if wm[1] >= plan.get("knobs", {}).get("stdio_buf", 4096) else 0.3):
+                # the call's LARGEST write request (a big attribute value that bypasses the stdio buffer): cut it short, with or without an error,
+                # while everything after it succeeds - a transient failure in the middle of one value
+                plan["faults"].append({"tid": 0, "op": k, "fs": "write", "nth": wm[0], "err": r.choice(["ENOSPC", "EIO", "SHORT"]), "partial": r.choice([9, 100, 512, max(1, wm[1] // 2), wm[1] - 1])})
+                continue
             kinds = list(counts)
             # writes / truncates / removes are where persistence is decided: weight them up
             wts = [4 if kk in ("write", "ftruncate", "remove") else 2 if kk in ("open", "lock", "unlock") else 1 for kk in kinds]
